@@ -561,7 +561,11 @@ func (f *Frame) changeSort(v Val, ns string, x ssa.Value, st *State) Val {
 	// conversions between []Coin and Coins, and similar named slice types
 	fn := g.uf("cast_"+mangle(v.Sort)+"_to_"+mangle(ns), []string{v.Sort}, ns)
 	g.note("change of representation %s -> %s is an uninterpreted function", v.Sort, ns)
-	return Val{Sort: ns, Term: g.def(f.name(x), ns, fmt.Sprintf("(%s %s)", fn, v.Term)), GoT: x.Type()}
+	out := Val{Sort: ns, Term: g.def(f.name(x), ns, fmt.Sprintf("(%s %s)", fn, v.Term)), GoT: x.Type()}
+	if v.Sort == "Coins" {
+		out.CoinsOf = v.Term // coins... handed to a variadic parameter: the callee model can use the value itself
+	}
+	return out
 }
 
 func (f *Frame) indexAddr(x *ssa.IndexAddr, st *State, reach string) {
